@@ -20,7 +20,7 @@ pub fn outcome_of(sym: &str, rng: &mut Rng, apps: &[AppSpec]) -> RespSpec {
         "s+ra" => RespSpec::Reply(ReplySpec::status(*rng.pick(&[400u16, 503, 429])).with_retry_after(*rng.pick(&[&b"0"[..], b"30", b"86400", b"99999999", b"4294967296", b"18446744073709551615", b"00000000000000000000060"]))),
         "forged" => {
             let (doc, _) = gen_doc(rng, apps, None, true);
-            let e = rng.pick(&[EtagSpec::Absent, EtagSpec::FlipSig, EtagSpec::ForeignKey, EtagSpec::OtherBody, EtagSpec::WrongKeyId]).clone();
+            let e = rng.pick(&[EtagSpec::Absent, EtagSpec::FlipSig, EtagSpec::ForeignKey, EtagSpec::OtherBody, EtagSpec::WrongKeyId, EtagSpec::OtherHeldKey]).clone();
             let mut rep = ReplySpec::ok(BodySpec::Doc(doc)).with_etag(e);
             // an unauthenticated error page is an authentication failure like any other: never retried
             if rng.chance(1, 3) {
@@ -151,6 +151,24 @@ pub fn run(args: &Args, r: &mut Report) {
             case.preload.insert("server_dictated_poll_interval".into(), Val::I(600_000_000));
         }
         case.shape = vec![seq.join(","), format!("prior={}", prior), format!("cup={}", cup)];
+        // a time sync while a request is in flight: the wall clock steps (back or forth), the monotonic clock
+        // does not; attempts, back-off and metrics are unaffected
+        if rng.chance(1, 4) {
+            let idx = rng.usize(3);
+            let d = *rng.pick(&[-3_600_000_000_000i128, -5_000_000_000, -1, 1, 7_200_000_000_000]);
+            case.script.http_wall_steps.push((idx, d));
+            case.shape.push(format!("wallstep{}:{}", idx, if d < 0 { "back" } else { "fwd" }));
+            r.count("cases-with-wall-clock-step-during-a-request", 1);
+        }
+        // a success status other than 200
+        if rng.chance(1, 6) {
+            if let Some(RespSpec::Reply(rep)) = case.script.checks[0].attempts.last_mut() {
+                if rep.status == 200 {
+                    rep.status = *rng.pick(&[201u16, 202, 203, 204, 206, 226, 299]);
+                    case.shape.push(format!("s{}", rep.status));
+                }
+            }
+        }
         case.nontrivial = !(seq.len() == 1 && seq[0] == "success");
         case.key_seed = rng.next_u64();
         let run = run_case(&case, &mut rng);
